@@ -11,9 +11,11 @@ import sys
 ROOT = os.path.dirname(os.path.dirname(os.path.abspath(__file__)))
 for d in sorted(glob.glob('/tmp/seed-C*/m*') +
                 glob.glob('/tmp/seed2-C*/m*') +
-                glob.glob('/tmp/seed3-C*/m*')):
-    pid = re.search(r'seed[23]?-(C\d+)', d).group(1)
-    k = ('w2' if '/seed2-' in d else 'w3' if '/seed3-' in d else '') + \
+                glob.glob('/tmp/seed3-C*/m*') +
+                glob.glob('/tmp/seed4-C*/m*')):
+    pid = re.search(r'seed[234]?-(C\d+)', d).group(1)
+    k = ('w2' if '/seed2-' in d else 'w3' if '/seed3-' in d else
+         'w4' if '/seed4-' in d else '') + \
         os.path.basename(d)
     log = os.path.join(d, 'check_quick.log')
     if not os.path.exists(log) or not os.path.exists(
